@@ -106,7 +106,13 @@ func (m *FloodSub) Execute(ctx context.Context) error {
 			// if !s.initiator {
 			if initSet == nil {
 				initSet = make([]*SubscriptionOpts, 0, len(m.channels))
-				for chid := range m.channels {
+				for chid, chm := range m.channels {
+					// skip channels whose last subscription was released and
+					// which the sweep below is about to drop: a peer told about
+					// them here would never be told that they are gone.
+					if len(chm) == 0 {
+						continue
+					}
 					initSet = append(initSet, &SubscriptionOpts{
 						ChannelId: chid,
 						Subscribe: true,
